@@ -8510,7 +8510,13 @@ func (c *Checker) checkSelectUnaryExpressionNode(node *ast.UnaryExpressionNode) 
 
 	resultClass := c.runtimeEnv.NamesToNamespace(symbol.Std, symbol.Result)
 	closedErrorClass := c.runtimeEnv.NamesToNamespace(symbol.Std, symbol.Channel, value.ToSymbol("ClosedError"))
-	channelVal := rightType.(*types.Generic).Get(0).Type
+	genericChannel, ok := rightType.(*types.Generic)
+	if !ok {
+		// not a channel (already reported) or an untyped operand
+		node.SetType(types.Untyped{})
+		return node
+	}
+	channelVal := genericChannel.Get(0).Type
 
 	typ := types.NewGenericWithTypeArgs(resultClass, channelVal, closedErrorClass)
 	node.SetType(typ)
